@@ -63,6 +63,61 @@ def _inline_split(env, m, db, dctx, adt, w, Lc):
     return None
 
 
+def _exit_by_view(env, m, eb, adt, w, r, resv, evs):
+    """early_exit that builds one owning view and lets it go out of scope: (ok, why, loc); None if there is no view"""
+    from r_m1 import is_view, normalize_views
+    ev, R, F = env.ev, env.R, env.F
+    views = [e for e in evs if is_view(e)]
+    if len(views) != 1:
+        return None
+    e = normalize_views(views, m)[0]
+    rterm = ("atomic", "fetch_add", resv.args[0], resv.args[1:], resv.ctx.site + ((resv.body.def_, resv.bb),))
+    ptr, ln = unref(e.args[0]), m.canon(unref(e.args[1]))
+    off = None
+    for x in subterms(ptr):
+        if x[0] == "call" and x[1] == "ptr_add":
+            off = unref(x[2][1])
+    Lc = m.canon(r["len_term"])
+    isb = begin_forms(ev, e.ctx, rterm, None)
+    offp = ev.payload(e.ctx, off[1]) if (off is not None and off[0] == "payload") else off
+    why = "view over %s, length %s" % (fmt(ptr)[:80], fmt(ln)[:80])
+    if not (offp is not None and (isb(offp) or offp == rterm) and R.classify(ptr)[0] == "store"):
+        return (False, why, e.loc())
+    # length: LEN - begin, possibly through a clamp of LEN to LEN
+    def simp(x):
+        if x[0] == "call" and x[1] == "min" and len(x[2]) == 2 and m.canon(unref(x[2][0])) == m.canon(unref(x[2][1])):
+            return x[2][0]
+        return None
+    ln = m.canon(rewrite(ln, simp))
+    if not (ln[0] == "bin" and ln[1] == "Sub" and ln[2] == Lc and m.canon(unref(ln[3])) in (m.canon(off), m.canon(offp))):
+        return (False, why, e.loc())
+    # the view is dropped here: never forgotten, wrapped or returned
+    vadt = e.info.get("adt")
+    top = e.info["top_bb"]
+    kept = False
+    dropped = False
+    for bi, blk in enumerate(eb.blocks):
+        if blk["cleanup"]:
+            continue
+        t = blk["term"]
+        if t["k"] == "drop" and vadt and vadt.split("::")[-1] in t["ty"]["s"]:
+            dropped = True
+        c = eb.callee(bi)
+        if c is not None and not c.indirect:
+            if c.key == "std::mem::drop" and any(vadt and vadt.split("::")[-1] in (eb.locals[a["place"]["l"]]["ty"]["s"])
+                                                 for a in t["args"] if a["k"] in ("move", "copy")):
+                dropped = True
+            if c.key in ("std::mem::forget", "std::mem::ManuallyDrop::new") and any(
+                    vadt and vadt.split("::")[-1] in (eb.locals[a["place"]["l"]]["ty"]["s"])
+                    for a in t["args"] if a["k"] in ("move", "copy")):
+                kept = True
+    if vadt and vadt.split("::")[-1] in eb.locals[0]["ty"]["s"]:
+        kept = True
+    if kept or not dropped:
+        return (False, "the view over the skipped elements is not dropped in early_exit", e.loc())
+    return (True, None, e.loc())
+
+
 def rule_own(env, shared):
     out = []
     R, F, ev = env.R, env.F, env.ev
@@ -477,6 +532,14 @@ def rule_own(env, shared):
                               "previous value is lost, so the skipped elements [old, LEN) are neither delivered nor dropped — "
                               "or, if they are dropped from a separately loaded value, a racing pull delivers one of them too"
                               % nm))
+            elif len(resv) == 1 and len(drops) == 0 and _exit_by_view(env, m, eb, adt, w, r, resv[0], evs) is not None:
+                # the skipped interval is taken as one last chunk (an owning view over [reserved begin, LEN)) that is abandoned
+                # right away: its destructor drops exactly these elements (OWN.view)
+                okv, whyv, locv = _exit_by_view(env, m, eb, adt, w, r, resv[0], evs)
+                out.append(Ob("OWN.d", k, "ok" if okv else "viol", locv,
+                              "early_exit drops exactly [reserved begin, LEN) of the storage (as an abandoned owning view)" if okv
+                              else "early_exit of %s does not drop exactly the interval [reserved begin, LEN): %s" % (nm, whyv),
+                              True))
             elif len(resv) != 1 or len(drops) != 1:
                 out.append(Ob("OWN.d", k, "viol", eb.file_line(),
                               "early_exit of %s does not reserve the remaining positions with one atomic read-modify-write and "
